@@ -8,7 +8,7 @@
    (distinct parameter names, defaults form a suffix of the positional parameters); wf_shape = a call
    Python accepts (no repeated keyword).  All statements are for signatures and calls of any size. *)
 From Coq Require Import List Arith Bool.
-From PV Require Import Bind.Model Bind.Proofs.
+From PV Require Import Bind.Model Bind.Proofs Bind.PytdModel Bind.PytdProofs.
 Import ListNotations.
 
 (* The repaired mapper binds exactly as CPython does. *)
@@ -102,3 +102,86 @@ Example rich_call_outside_boundary :
     = Some [Some (Pos 0); Some Default; Some Default; Some (Kw 6); Some Default; Some (VarArgs []); Some (KwArgs [1])] /\
   lookup_all sig_rich (bind_py_fixed sig_rich c) = lookup_all sig_rich (bind_c sig_rich c).
 Proof. vm_compute. repeat split; reflexivity. Qed.
+
+(* ================================================================================== *)
+(* Calls of functions whose signature comes from a stub (PyTDFunction, single signature).
+   bind_pytd (coq/Bind/PytdModel.v) = PyTDSignature._map_args + _fill_in_missing_parameters.
+   [va_annotated] = the stub annotates *args; [argname] = function.argname, the placeholder names
+   ("_<i>") under which the mapper then files the overflowing positional arguments;
+   argname_fresh: no keyword of the call and no parameter is spelled like such a placeholder. *)
+
+(* Error iff error, for every stub signature and call: pytype reports an arity/keyword error exactly when
+   CPython raises TypeError. *)
+Theorem bind_pytd_err_agree :
+  forall va_annotated argname s c, wf_sig s -> wf_shape c -> argname_fresh argname s c ->
+  is_err (bind_pytd va_annotated argname s c) = is_err (bind_c s c).
+Proof. exact bind_pytd_err_agree_lemma. Qed.
+Print Assumptions bind_pytd_err_agree.
+
+(* ... and on success every parameter other than **kwargs (incl. *args) holds what CPython gives it. *)
+Theorem bind_pytd_agree_except_kwargs :
+  forall va_annotated argname s c, wf_sig s -> wf_shape c -> argname_fresh argname s c ->
+  agree_except_kwargs s (bind_pytd va_annotated argname s c) (bind_c s c).
+Proof. exact bind_pytd_agree_except_kwargs_lemma. Qed.
+Print Assumptions bind_pytd_agree_except_kwargs.
+
+(* Full agreement is refuted by the mapper as it stands: stub def f(x, /, **kw); f(a0, x=..) -- the keyword is
+   dropped (checked against nothing) instead of landing in **kw. *)
+Theorem bind_pytd_agree_refuted_binding :
+  exists s c, wf_sig s /\ wf_shape c /\ argname_fresh argname14 s c
+              /\ lookup_all s (bind_pytd false argname14 s c) = Some [Some (Pos 0); Some (KwArgs [])]
+              /\ lookup_all s (bind_c s c) = Some [Some (Pos 0); Some (KwArgs [0])]
+              /\ ~ agree s (bind_pytd false argname14 s c) (bind_c s c).
+Proof. exact bind_pytd_agree_refuted_binding_lemma. Qed.
+Print Assumptions bind_pytd_agree_refuted_binding.
+
+(* It holds whenever the stub has no **kwargs or no keyword names a positional-only parameter ... *)
+Theorem bind_pytd_agree_partial :
+  forall va_annotated argname s c, wf_sig s -> wf_shape c -> argname_fresh argname s c ->
+  (kwargs s = None \/ forall k, In k (kws c) -> ~ In k (posonly s)) ->
+  agree s (bind_pytd va_annotated argname s c) (bind_c s c).
+Proof. exact bind_pytd_agree_partial_lemma. Qed.
+Print Assumptions bind_pytd_agree_partial.
+
+(* ... and that boundary is exact. *)
+Theorem bind_pytd_disagree_exact :
+  forall va_annotated argname s c d, wf_sig s -> wf_shape c -> argname_fresh argname s c ->
+  kwargs s <> None -> (exists k, In k (kws c) /\ In k (posonly s)) ->
+  bind_pytd va_annotated argname s c = Ok d -> ~ agree s (bind_pytd va_annotated argname s c) (bind_c s c).
+Proof. exact bind_pytd_disagree_exact_lemma. Qed.
+Print Assumptions bind_pytd_disagree_exact.
+
+Theorem bind_pytd_agree_boundary :
+  forall va_annotated argname s c, wf_sig s -> wf_shape c -> argname_fresh argname s c ->
+  (agree s (bind_pytd va_annotated argname s c) (bind_c s c) <->
+   (kwargs s = None \/ (forall k, In k (kws c) -> ~ In k (posonly s))
+    \/ is_err (bind_pytd va_annotated argname s c) = true)).
+Proof. exact bind_pytd_agree_boundary_lemma. Qed.
+Print Assumptions bind_pytd_agree_boundary.
+
+(* The freshness hypothesis is needed: stub def h( *va: int, **kw); h(a0, _0=..) -- the keyword collides with
+   the placeholder of the overflowing positional argument: duplicate-keyword-argument, CPython accepts.
+   (Without the annotation on *va the same call is accepted.) *)
+Theorem bind_pytd_argname_refuted :
+  exists s c, wf_sig s /\ wf_shape c /\ In (argname14 0) (kws c)
+              /\ is_err (bind_pytd true argname14 s c) = true /\ is_err (bind_c s c) = false
+              /\ is_err (bind_pytd false argname14 s c) = false.
+Proof. exact bind_pytd_argname_refuted_lemma. Qed.
+Print Assumptions bind_pytd_argname_refuted.
+
+(* Non-vacuity: the rich signature as a stub with annotated *va; g(p0..p4, g=.., zz=..) overflows two
+   positional arguments (filed under _3, _4 = names 17, 18) and one foreign keyword: same as CPython. *)
+Example pytd_rich_call :
+  let c := mkShape 5 [6; 11] in
+  wf_shape c /\ argname_fresh argname14 sig_rich c /\
+  lookup_all sig_rich (bind_pytd true argname14 sig_rich c)
+    = Some [Some (Pos 0); Some (Pos 1); Some (Pos 2); Some (Kw 6); Some Default; Some (VarArgs [3; 4]); Some (KwArgs [11])] /\
+  lookup_all sig_rich (bind_c sig_rich c) = lookup_all sig_rich (bind_pytd true argname14 sig_rich c) /\
+  bind_pytd true argname14 sig_rich (mkShape 3 [3; 6]) = Err (EDuplicateKeyword [3]) /\
+  bind_pytd true argname14 sig_rich (mkShape 6 [6]) = Ok [(0, Pos 0); (1, Pos 1); (3, Pos 2); (6, Kw 6); (7, Default);
+                                                          (9, VarArgs [3; 4; 5]); (10, KwArgs [])].
+Proof.
+  cbv zeta. split; [apply wf_shapeb_sound; reflexivity|]. split.
+  - intros i. unfold argname14. simpl. split; intros H; repeat (destruct H as [H|H]; [discriminate H|]); exact H.
+  - vm_compute. repeat split; reflexivity.
+Qed.
